@@ -1,5 +1,5 @@
 #!/usr/bin/env python3
-"""Render /verif/seeded/RESULTS.json + meta.json titles as the markdown table of DESIGN.md §9.7.1."""
+"""Render /verif/seeded/RESULTS.json + meta.json titles as the markdown table of DESIGN.md §9.7.2."""
 import json, os, re
 R = json.load(open('/verif/seeded/RESULTS.json'))
 def key(k):
